@@ -2,7 +2,7 @@
    Model: Build.build with a failure oracle `fails` and the in-build flag.  Statements only;
    proofs are in theories/Traverse_proofs.v and theories/Build_proofs.v. *)
 From Fiddle Require Import PyBase PySlice Sig ArgStore PyCall Heap Traverse Build Build_stmt
-  Traverse_proofs Build_proofs Iterate_proofs C05Check BuildPath_proofs AnchorsBuild.
+  Traverse_proofs Build_proofs Iterate_proofs C05Check BuildPath_proofs AnchorsBuild BuildFail_more.
 
 (* (hypotheses: dict / named-tuple keys are distinct, as in Python; the raising node is a Config,
    not an unfilled TaggedValue, whose own error is not governed by the failure oracle)
@@ -69,3 +69,20 @@ Theorem C05_path_is_visit_path : forall e h r,
     failing_path e h r k = p.
 Proof. exact failing_path_is_visit_path. Qed.
 Print Assumptions C05_path_is_visit_path.
+
+(* Faithful in the other direction too: a build that returns normally invoked no failing callable
+   (every Config reachable from the root is one the oracle lets succeed), hence a reachable failing
+   Config always makes the build fail - a failure is never swallowed. *)
+Theorem C05_success_means_no_reachable_failure : forall e fails h r s res r',
+  wf_b e h = true -> root_ok h r -> mrun e h (build_node e fails) r = (s, res) ->
+  res = inl r' ->
+  forall i fn a t, reach e h r i -> nth_error h i = Some (NBuildable BConfig fn a t) -> fails i = None.
+Proof. exact success_means_no_reachable_failure. Qed.
+Print Assumptions C05_success_means_no_reachable_failure.
+
+Theorem C05_failure_never_swallowed : forall e fails h r s res i fn a t x,
+  wf_b e h = true -> root_ok h r -> mrun e h (build_node e fails) r = (s, res) ->
+  reach e h r i -> nth_error h i = Some (NBuildable BConfig fn a t) -> fails i = Some x ->
+  exists f, res = inr f.
+Proof. exact reachable_failure_means_failure. Qed.
+Print Assumptions C05_failure_never_swallowed.
